@@ -42,6 +42,13 @@ CHECKS = {
             "order and a fresh stand-alone build.",
             "Trusted: numpy; fresh stand-alone builds of the same code give each asset's variable count.",
             "DESIGN.md 5 C04"),
+    "C05": ("property-based testing (Hypothesis): physical reference recursion + validity predicates over the solution and the reported series",
+            "Exploration: storages with every listed parameter (inflow, efficiency, start != end, two nodes, windows, blocks, "
+            "MIP options) are optimised inside generated portfolios; the fill level is recomputed from Results.x by the "
+            "recursion in the statement and compared with bounds, end level and the reported series.",
+            "Trusted: mapping rows name the storage's charge/discharge variables (var_name disp/disp_in/disp_out). Known "
+            "finding D7 (blocks ending on a boundary) is excluded by construction and replayed as KNOWN-FINDING.",
+            "DESIGN.md 5 C05"),
     "C07": ("property-based testing (Hypothesis): structural invariants + differential against stand-alone asset problems, no solver",
             "Exploration: assembled problems of generated portfolios (adversarial names, unmapped variables, appended "
             "variables, several rows per variable) are compared block by block with the stand-alone problem of a fresh "
